@@ -19,6 +19,7 @@ PAIRS = {'C01-m1': ['C01'], 'C01-m2': ['C01', 'C20'], 'C02-m1': ['C02'], 'C02-m2
          'C13-m6': ['C13', 'C15'], 'C13-m7': ['C13'], 'C18-m6': ['C18', 'C05'], 'C18-m7': ['C18'], 'C08-m5': ['C08'], 'C08-m6': ['C08', 'C17'], 'C05-m5': ['C05'], 'C05-m6': ['C05', 'C09'],
          'C11-m3': ['C11', 'C09'], 'C11-m4': ['C11', 'C13'], 'C19-m5': ['C19', 'C14'], 'C19-m6': ['C19'], 'C09-m7': ['C09', 'C05'], 'C09-m8': ['C09'], 'C15-m5': ['C15', 'C16'], 'C15-m6': ['C15', 'C13'],
          'C05-m7': ['C05'], 'C06-m4': ['C06'], 'C07-m4': ['C07', 'C06'], 'C09-m9': ['C09'], 'C10-m8': ['C10', 'C09'], 'C11-m5': ['C11'], 'C12-m7': ['C12'], 'C13-m8': ['C13', 'C15'], 'C16-m8': ['C16'], 'C17-m5': ['C17'],
+         'C01-m6': ['C01'], 'C02-m6': ['C02'], 'C03-m6': ['C03'], 'C04-m6': ['C04', 'C01'], 'C13-m9': ['C13', 'C15'], 'C14-m6': ['C14', 'C13'], 'C15-m8': ['C15', 'C13'], 'C20-m8': ['C20', 'C19'], 'C08-m8': ['C08'], 'C12-m8': ['C12', 'C11', 'C13'],
          'C05-m8': ['C05', 'C09'], 'C06-m5': ['C06'], 'C07-m5': ['C07', 'C06'], 'C09-m10': ['C09'], 'C10-m9': ['C10'], 'C11-m6': ['C11'], 'C16-m9': ['C16'], 'C17-m6': ['C17'], 'C18-m9': ['C18'], 'C19-m8': ['C19', 'C13'],
          'C01-m5': ['C01'], 'C02-m5': ['C02'], 'C03-m5': ['C03'], 'C04-m5': ['C04'], 'C08-m7': ['C08'], 'C14-m5': ['C14', 'C13'], 'C15-m7': ['C15', 'C13'], 'C18-m8': ['C18'], 'C19-m7': ['C19', 'C14'], 'C20-m7': ['C20', 'C13', 'C11']}
 only = sys.argv[1:]
